@@ -114,7 +114,7 @@ class StringlyTypedConfig:  # pylint: disable=too-many-instance-attributes
             StringlyTypedConfig instance with values from dictionary
         """
         # Check for language-specific overrides first
-        if language and language in config:
+        if language and isinstance(config.get(language), dict):
             lang_config = config[language]
             return cls._from_merged_config(config, lang_config)
 
